@@ -81,7 +81,9 @@ HasGroup(st, a) == st.apps[a].group # ""
 
 (* Application.release_identity / IdentityGroup.release *)
 Release(st, a) ==
-  IF HasGroup(st, a) /\ st.apps[a].identity # NoNum
+  IF HasGroup(st, a) /\ st.apps[a].identity # NoNum /\ st.apps[a].group \notin DOMAIN st.groups
+  THEN [st EXCEPT !.apps[a].identity = NoNum]
+  ELSE IF HasGroup(st, a) /\ st.apps[a].identity # NoNum
   THEN LET g == st.apps[a].group id == st.apps[a].identity IN
        [st EXCEPT !.apps[a].identity = NoNum,
                   !.groups[g].available = IF id < st.groups[g].count THEN @ \cup {id} ELSE @]
@@ -165,7 +167,7 @@ EvictScan(x, q, k, j, a) ==
   IF j <= k THEN x
   ELSE
     LET v == q[j][1] IN
-    IF v \notin AppNames(x.st) \/ x.st.apps[v].server = NoServer
+    IF v \notin AppNames(x.st) \/ x.st.apps[v].server \notin SrvNames(x.st)
        \/ x.st.servers[x.st.apps[v].server].state # "up"
     THEN EvictScan(x, q, k, j - 1, a)
     ELSE
@@ -182,7 +184,8 @@ EvictScan(x, q, k, j, a) ==
 Acquire(st, a, hi) ==
   IF ~HasGroup(st, a) \/ st.apps[a].identity # NoNum
   THEN [ok |-> TRUE, st |-> st, good |-> TRUE, used |-> FALSE]
-  ELSE LET g == st.apps[a].group av == st.groups[g].available IN
+  ELSE LET g == st.apps[a].group
+           av == IF g \in DOMAIN st.groups THEN st.groups[g].available ELSE {} IN
        IF av = {} THEN [ok |-> FALSE, st |-> st, good |-> TRUE, used |-> FALSE]
        ELSE LET id == IF hi[a] \in av THEN hi[a] ELSE CHOOSE z \in av : TRUE IN
             [ok |-> TRUE, good |-> hi[a] \in av, used |-> TRUE,
@@ -199,7 +202,7 @@ StepApp(x, q, k, hs, hi) ==
        ELSE [x EXCEPT !.st = SkipRelease(st0, a)]
   ELSE
     LET s0 == st0.apps[a].server
-        renewing == st0.apps[a].renew /\ s0 # NoServer
+        renewing == st0.apps[a].renew /\ s0 \in SrvNames(st0)
         canRenew == renewing /\ LifetimeOk(st0, a, s0)
         rest == IF renewing /\ ~canRenew THEN <<s0, st0.apps[a].expiry>> ELSE <<>>
         st1 == IF canRenew THEN [st0 EXCEPT !.apps[a].expiry = st0.clock + st0.apps[a].lease]
